@@ -78,6 +78,8 @@ class FakeWS(protocol.Protocol):
     def connectionMade(self):
         self._conn = self.transport.conn
         self._conn.ws = self
+        if self._conn.world._abort_ws:
+            return          # the WebSocket handshake never completes: no onOpen
         self._conn.world._call_entry(self._conn.client, "ws_open", self._RC.ws_open, self)
 
     def sendMessage(self, payload, isBinary=False):
@@ -253,6 +255,7 @@ class MailboxWorld:
         self.logged = []            # log.err'd failures
         self.trace = []
         self.stepno = 0
+        self._abort_ws = False
         self._delivering = None
         self.tracker_hook = lambda what, cl: None
         self._observer = self._log_observer
@@ -300,6 +303,14 @@ class MailboxWorld:
         connector.transport = tr
         conn.transport = tr
         wrapper.makeConnection(tr)
+        if self._abort_ws:
+            # TCP came up but the peer is not (yet) a WebSocket server - a proxy, a server still restarting: Autobahn
+            # reports onClose(False, 1006, ...) without any onOpen
+            try:
+                self._kill(conn, ConnectionLost())
+            finally:
+                self._abort_ws = False
+            return conn
         self.server.connect(conn)
         return conn
 
@@ -424,6 +435,14 @@ class MailboxWorld:
             reactor.complete(self._attempt_of(cl))
         finally:
             self.server.welcome = saved
+
+    def _do_ConnAbort(self, act):
+        cl = self.clients[act["c"]]
+        self._abort_ws = True
+        try:
+            reactor.complete(self._attempt_of(cl))
+        finally:
+            self._abort_ws = False
 
     def _do_ConnFail(self, act):
         cl = self.clients[act["c"]]
